@@ -63,7 +63,7 @@ P = {
          "OUT OF CLAIM: every accuracy statement including the asinh(-x) cancellation the property singles out (needs the true asinh; a surrogate such as odd symmetry is not the property); atanh(|x|>1) goes through a double-double division and is only decided at ground points. ",
          "exponent cells with recording UF for ln; pinned ground queries"),
  "C19": ("Small-integer class: a integer valued with |a| < 2^8 symbolic (both signs), b in {+-3,+-5,+-7,+-10,+-31}: every form of % (TwoFloat or f64 on either side, %=), div_euclid and rem_euclid equal Rust's i64 %, div_euclid, rem_euclid exactly - all four sign combinations of the +-1 adjustment. Second class: concrete double-double divisors with a NON-ZERO low word (b = (5, 2^-60), (3, -2^-58), (7, 2^-70)) against small integer dividends (|a| < 2^6 symbolic): a - k*b within 16*2^-106*max(|a|,|b|) for exactly k = trunc(a/b), div_euclid exactly floor(a/b), with a fixed-point oracle whose k is a solver-chosen witness.",
-         "The tolerance clause for general operands is out of reach for the TwoFloat/TwoFloat-based forms (chained dividers) and only ATTEMPTED for TwoFloat % f64 with concrete divisors (thorough); |a| < 2^12 attempted. ",
+         "Third class (two cells quick, 40 thorough, all decided): TwoFloat % f64 and %= with concrete divisors +-3, +-5, +-7, +-10 and a FULLY symbolic double-double dividend on exponent cells (quotients up to 2^30): a - k*b within 16*2^-106*max(|a|,|b|) for k = trunc(a/b), adjacent k only within 2^-98 of an integer quotient (witness-k integer oracle). The small-integer class is also decided for |a| < 2^12 (thorough). The tolerance clause for general operands remains out of reach for the TwoFloat/TwoFloat-based forms (three chained dividers with a symbolic divisor). ",
          "small-integer class against i64 semantics; witness-k integer oracle (attempt)"),
  "C20": ("serde: an in-harness Deserializer feeds sequences and maps of symbolic length 0..3, symbolic keys in {hi, lo, unknown} and symbolic f64 values to the real Deserialize visitor: Ok iff well formed and valid, words bit-identical, never an invalid TwoFloat; a recording Serializer checks the emitted struct and the round trip (sequence, map in either order). Formatting: with f64's Display/LowerExp/UpperExp stubbed to a token that records value and flags, every (hi,lo) x {plain,+,.p,+.p}: output is '<hi> <sign of lo> <|lo|>' with the flags handed on correctly.",
          "OUT OF CLAIM: that the two numerals parse back to exactly hi and |lo| (core's float printing/parsing, not encodable). ",
